@@ -12,7 +12,7 @@ use std::panic::{catch_unwind, AssertUnwindSafe};
 
 const FIXED_HEADS: &[&[u8]] = &[b"", b"id", b"id desc", b" lead", b"a  b ", b"x>y", b"\xffz \xc3", b"id d e", b"a\tb c\x0bd", b"id ", b" ", b"a  ", b"a\rb", b"id left\rright end", b"\rx"];
 
-/// the fixed headers plus ALL headers of up to 3 bytes over {space, TAB, CR, letter, non-UTF-8 byte}
+/// the fixed headers plus ALL headers of up to 3 bytes over {space, TAB, CR, letter, non-UTF-8 byte, '>', '@', '+'}
 /// that a writer can be asked to write (no LF, not ending in CR)
 fn heads() -> Vec<Vec<u8>> {
     let mut out: Vec<Vec<u8>> = FIXED_HEADS.iter().map(|h| h.to_vec()).collect();
@@ -266,7 +266,7 @@ pub fn c10(tier: Tier) -> i32 {
         Report {
             property: "C10".into(),
             tier: tier.name().into(),
-            rule: format!("sequences = first n positional letters, n = 0..{}; every wrap width 1..n+2; {} headers (fixed menu: empty, spaces leading/trailing/multiple, '>' inside, non-UTF-8, CR inside / leading; plus ALL headers of <= 3 bytes over {{space, TAB, CR, letter, non-UTF-8 byte}} not ending in CR); entry points write_to, write_parts, write_wrap, write_head, write_id_desc, write_seq, write_wrap_seq, write_seq_iter, write_wrap_seq_iter, OwnedRecord::{{write,write_wrap}}, RefRecord::{{write,write_wrap}} (RefRecord parsed from every line splitting of the sequence, LF and CRLF); ALL 2^(n-1) compositions of the sequence into chunks, each also with 1-2 empty chunks inserted at every position; oracle: output parses back (reference parser and real reader) to (header, sequence), 2-3 records back to back parse to the list, wrapped lines <= width and all but the last = width, chunked output = whole output byte for byte (n >= 1); every call repeated into a writer that accepts only 1 or 3 bytes per write(): same bytes", maxn, heads_v.len()),
+            rule: format!("sequences = first n positional letters, n = 0..{}; every wrap width 1..n+2; {} headers (fixed menu: empty, spaces leading/trailing/multiple, '>' inside, non-UTF-8, CR inside / leading; plus ALL headers of <= 3 bytes over {{space, TAB, CR, letter, non-UTF-8 byte, '>', '@', '+'}} not ending in CR); entry points write_to, write_parts, write_wrap, write_head, write_id_desc, write_seq, write_wrap_seq, write_seq_iter, write_wrap_seq_iter, OwnedRecord::{{write,write_wrap}}, RefRecord::{{write,write_wrap}} (RefRecord parsed from every line splitting of the sequence, LF and CRLF); ALL 2^(n-1) compositions of the sequence into chunks, each also with 1-2 empty chunks inserted at every position; oracle: output parses back (reference parser and real reader) to (header, sequence), 2-3 records back to back parse to the list, wrapped lines <= width and all but the last = width, chunked output = whole output byte for byte (n >= 1); every call repeated into a writer that accepts only 1 or 3 bytes per write(): same bytes", maxn, heads_v.len()),
             exhaustive: true,
             assumptions: vec!["sequence bytes are positional letters (no LF, CR, '>'); the writers never inspect sequence bytes".into()],
             extra: json!({"states_note": "states = (sequence length, width, header, entry point, chunking) cases; transitions = writer calls"}),
